@@ -67,6 +67,13 @@ C16Fault(cfg, gen) ==
        \cup (IF Len(gen.files) # 0 THEN {VG("C16." \o cfg.fault \o "_nofile", cfg.fault)} ELSE {})
   ELSE {}
 
+\* C13: the separate-package layout compiles and imports the struct package under a qualifier
+C13Run(cfg, gen) ==
+  IF ~cfg.separate THEN {}
+  ELSE (IF gen.exit # 0 \/ gen.compile # "" THEN {VG("C13.compiles", gen.key)} ELSE {})
+       \cup (IF ~\E i \in DOMAIN gen.imports : gen.imports[i] = gen.structimport THEN {VG("C13.qualified_import", gen.key)} ELSE {})
+       \cup (IF gen.package # "tfout" THEN {VG("C13.package", gen.key)} ELSE {})
+
 \* alternative renderings of the same run (other channel split, permuted entry order, plain repetition,
 \* permuted declaration order): C14 compares the raw response bytes, C15 / C16 the generated file
 AltViol(cfg, gen) ==
@@ -92,14 +99,17 @@ SchemaDiff(M, real) ==
       mn == DOMAIN model
       injected == {M.injected[i].name : i \in DOMAIN M.injected}
       fieldOf(a) == FieldByAttr(M, a)
-  IN {IF a \in injected THEN VG("C10.injected", PathOf(M, a)) ELSE V("C02.bijection", fieldOf(a), "attribute missing") : a \in mn \ rn}
-     \cup {VG("C02.bijection", PathOf(M, a) \o " unexpected attribute") : a \in rn \ mn}
+      \* where the mismatch sits: fields of a message embedded into a message below the root
+      here == IF M.hasembed /\ M.depth > 0 THEN "embed-below-root" ELSE ""
+      trigOf(F) == IF here # "" THEN here ELSE IF F.msg # NoMsg /\ SubOf(F).hasembed THEN "sub-embed-below-root" ELSE ""
+  IN {IF a \in injected THEN VG("C10.injected", PathOf(M, a)) ELSE V("C02.bijection", fieldOf(a), "attribute missing " \o here) : a \in mn \ rn}
+     \cup {[c |-> "C02.bijection", p |-> PathOf(M, a) \o " unexpected attribute", sig |-> here] : a \in rn \ mn}
      \cup UNION {
        LET r == real[a]
            m == model[a]
            inj == a \in injected
            F == IF inj THEN Placeholder(M.path) ELSE fieldOf(a)
-           v(c) == IF inj THEN VG("C10.injected", PathOf(M, a)) ELSE V(c, F, "")
+           v(c) == IF inj THEN VG("C10.injected", PathOf(M, a)) ELSE V(c, F, trigOf(F))
            ph == ~inj /\ F.placeholder
        IN (IF r.type # m.type \/ r.mode # m.mode THEN {v(IF ph THEN "C10.placeholder" ELSE "C02.type")} ELSE {})
           \* injected attributes carry their configured flags verbatim (a computed-only one is neither)
